@@ -39,6 +39,7 @@ class Source(Stream):
 
     def __init__(self, start=False, **kwargs):
         self.stopped = True
+        self._run_in_flight = False
         super().__init__(ensure_io_loop=True, **kwargs)
         self.started = False
         if start:
@@ -58,7 +59,19 @@ class Source(Stream):
         if self.stopped:
             self.stopped = False
             self.started = True
-            self.loop.add_callback(self.run)
+            if not self._run_in_flight:
+                # a previous run() that has not yet noticed the stop() simply
+                # carries on; starting a second one would poll twice
+                self._run_in_flight = True
+                self.loop.add_callback(self._run_and_clear)
+
+    async def _run_and_clear(self):
+        try:
+            result = self.run()
+            if isawaitable(result):
+                await result
+        finally:
+            self._run_in_flight = False
 
     async def run(self):
         """This coroutine will be invoked by start() and emit all data
